@@ -19,6 +19,10 @@
 (*                          gateway's built-in default metrics file when the    *)
 (*                          user's file does not exist; that file is not part   *)
 (*                          of the backup                                       *)
+(*   StaleBackup            (seeded) Backup() adds to the snapshot of the earlier *)
+(*                          updates instead of replacing it: files removed by   *)
+(*                          an earlier successful update come back on a         *)
+(*                          roll-back.  Visible only in a HISTORY of updates.   *)
 (*   NoReloadAfterRestore   (never in the tree; sensitivity of BehavAtomic)     *)
 (*                          the restored files are not loaded again             *)
 EXTENDS CfgUpdateP, Sequences
@@ -28,7 +32,8 @@ CONSTANTS Paths,      \* every path of the configuration tree the model knows
                       \*                6 = the gateway's built-in default metrics file (outside Backup/Restore)
           Txns,       \* probe transaction ids
           RestoreWrongDirection, PublishBeforeInit, ContinueAfter405, ApplyNoBackup, NoReloadAfterRestore,
-          MetricsToDefaultPath
+          MetricsToDefaultPath, StaleBackup,
+          RecordHistory   \* keep the earlier updates of a history in c.prev (case generation only: it keeps histories apart)
 
 VARIABLES c, pc, nxt, sigc, after, round, disk, backup, active, todo, todoR, sub, wp, hapLeft,
           cnt, fired, faultPending, open, closed, p, viol
@@ -51,7 +56,7 @@ EmptyEngine == [k |-> "unbuilt", beh |-> Unbuilt]
 Observed == active.beh
 
 NoCase == [endpoint |-> "configuration", method |-> "PUT", disk |-> << >>, payload |-> << >>, decodable |-> TRUE,
-           badb64 |-> {}, fault |-> [point |-> "none", nth |-> 0], tree |-> ""]
+           badb64 |-> {}, fault |-> [point |-> "none", nth |-> 0], tree |-> "", n |-> 0, prev |-> << >>]
 
 \* before a case is loaded
 Init ==
@@ -64,12 +69,29 @@ Init ==
 
 \* a case begins: the tree holds cs.disk and the active engine was built from it
 Load(cs) ==
-    /\ c' = cs /\ pc' = "idle" /\ nxt' = "" /\ sigc' = 0 /\ after' = "" /\ round' = 1
+    /\ c' = [cs EXCEPT !.n = 1, !.prev = << >>]
+    /\ pc' = "idle" /\ nxt' = "" /\ sigc' = 0 /\ after' = "" /\ round' = 1
     /\ disk' = Total(cs.disk) /\ backup' = Total(<< >>) /\ active' = Built(Beh(Flows, cs.disk))
     /\ todo' = {} /\ todoR' = {} /\ sub' = "" /\ wp' = "" /\ hapLeft' = 0
     /\ cnt' = [pt \in Points |-> 0] /\ fired' = FALSE /\ faultPending' = FALSE
     /\ open' = {} /\ closed' = {}
     /\ p' = PStart(Flows, cs) /\ viol' = {}
+
+\* a HISTORY of updates on one gateway: the next update starts from whatever the previous one left - tree, active engine
+\* and the backup object - and is judged against that tree ("all or nothing" holds for every update of a history).
+\* A history ends after an update whose roll-back was hit by the injected failure (nothing is promised about its result).
+Brief(cs) == [endpoint |-> cs.endpoint, method |-> cs.method, disk |-> cs.disk, payload |-> cs.payload,
+              decodable |-> cs.decodable, badb64 |-> cs.badb64, fault |-> cs.fault]
+Present(d) == [q \in {r \in DOMAIN d : d[r] # "none"} |-> d[q]]
+LoadNext(cs) ==
+    /\ pc = "done" /\ ~p.exempt
+    /\ LET nc == [cs EXCEPT !.disk = Present(disk), !.tree = TreeOf(disk), !.n = c.n + 1, !.prev = IF RecordHistory THEN Append(c.prev, Brief(c)) ELSE << >>] IN
+       /\ c' = nc /\ p' = PStart(Flows, nc)
+    /\ pc' = "idle" /\ nxt' = "" /\ sigc' = 0 /\ after' = "" /\ round' = 1
+    /\ UNCHANGED <<disk, backup, active>>
+    /\ todo' = {} /\ todoR' = {} /\ sub' = "" /\ wp' = "" /\ hapLeft' = 0
+    /\ cnt' = [pt \in Points |-> 0] /\ fired' = FALSE /\ faultPending' = FALSE
+    /\ open' = {} /\ closed' = {} /\ viol' = {}
 
 Note(v) == viol' = IF v = "" THEN viol ELSE viol \cup {v}
 
@@ -129,7 +151,8 @@ Method405 == pc = "start" /\ c.method # "PUT"
 DecodeBad == pc = "decode" /\ ~c.decodable /\ GoSignal(400, "reply") /\ Same /\ NoHit /\ NoObs
 DecodeOK  == pc = "decode" /\ c.decodable /\ Step(IF HasBackup THEN "backup" ELSE "parse") /\ Same /\ NoHit /\ NoObs
 
-Backup == /\ pc = "backup" /\ Step("parse") /\ backup' = disk
+Backup == /\ pc = "backup" /\ Step("parse")
+          /\ backup' = IF StaleBackup THEN [q \in Paths |-> IF disk[q] # "none" THEN disk[q] ELSE backup[q]] ELSE disk
           /\ UNCHANGED <<c, after, round, disk, active, todo, todoR, sub, wp, hapLeft>> /\ NoHit /\ NoObs
 
 ParseBad == pc = "parse" /\ c.badb64 # {} /\ GoSignal(400, "reply") /\ Same /\ NoHit /\ NoObs
